@@ -76,7 +76,7 @@ type Case struct {
 var (
 	annKeys     = []string{"a1", "a2", "a3"}
 	envKeys     = []string{"E1", "E2", "E3"}
-	mountKeys   = []string{"/m1", "/m2", "/m1/sub"}
+	mountKeys   = []string{"/m1", "/m2/", "/m1/./sub"} // two of them not in clean form: keys are compared as written
 	devKeys     = []string{"/dev/d1", "/dev/d2", "/dev/d3"}
 	cdiKeys     = []string{"v.com/c=x1", "v.com/c=x2", "v.com/c=x3"}
 	rlimitKeys  = []string{"RLIMIT_NOFILE", "RLIMIT_NPROC", "RLIMIT_CORE"}
